@@ -2,7 +2,7 @@
    and the two utils/binary varint helpers they use.  Executable definitions
    only.  The checksum function and its size are parameters (section
    variables): SHA-1 (20) or SHA-256 (32) of the bytes written/read so far. *)
-From Coq Require Import List NArith ZArith Bool String.
+From Coq Require Import List NArith ZArith Bool String Ascii.
 From GoGit Require Import Base.Out.
 Import ListNotations.
 Local Open Scope N_scope.
@@ -481,3 +481,30 @@ Definition c12_enc (hs : N) (skip_hash : bool) (sum : string) (ver : N) (entries
   | Ok body, Ok file => OOk [obytes body; OBool true; res_out index_out (decode (N.to_nat hs) Hf false file)]
   | Err e, _ | _, Err e => OErr (err_sym e)
   end.
+
+(* ---- long inputs and long outputs ----
+   coqc overflows its (OCaml) stack when it reads back a rendered observable of more than a few
+   10^4 characters, and string literals are slow to parse: the input arrives as a list of
+   numerals, each holding up to 15 bytes below a leading 1 (0x1aabb = [0xaa; 0xbb]), and an
+   observable whose text is long is replaced, on both sides, by its length and a digest. *)
+Fixpoint word_bytes (fuel : nat) (w : N) (acc : bytes) : bytes :=
+  match fuel with
+  | O => acc
+  | S f => if w <=? 1 then acc else word_bytes f (w / 256) (w mod 256 :: acc)
+  end.
+Definition bytes_of_words (l : list N) : bytes := flat_map (fun w => word_bytes 16 w []) l.
+
+Fixpoint sdigest (s : string) (h : N) : N :=
+  match s with
+  | EmptyString => h
+  | String a r => sdigest r ((h * 1000003 + N_of_ascii a + 1) mod 4294967291)
+  end.
+Definition short_limit : N := 20000.
+Definition c12_short (o : out) : out :=
+  let s := render o in
+  if short_limit <? N.of_nat (String.length s) then OList [OSym "long"; ONat (String.length s); ON (sdigest s 0)] else o.
+
+Definition c12_decw (hs : N) (skip_hash : bool) (sums : list string) (data : list N) : out :=
+  let d := bytes_of_words data in
+  let Hf := fun prefix : bytes => unhex (nth (List.length d - N.to_nat hs - List.length prefix) sums EmptyString) in
+  c12_short (res_out index_out (decode (N.to_nat hs) Hf skip_hash d)).
